@@ -167,6 +167,19 @@ def upstream_requests_by_id(hist):
                 out.setdefault(rid, []).append((sv, r))
     return out
 
+def norule_is_garbage(hist):
+    """True when every 'no rule matches' event comes from bytes that are not an HTTP request at all (squid's fault, for the property to judge),
+    False when a well-formed request went unanswered (a gap in the scenario)"""
+    found = False
+    for sc in hist.server_conns():
+        if not any(e[2] == 'NORULE' for e in sc.events):
+            continue
+        reqs, left, err = simlib.parse_requests(hist.peer_received(sc))
+        if not err:
+            return False
+        found = True
+    return found
+
 def base_outcome(hist, require_ready=True, allow_norule=False):
     """Outcome pre-filled with universal health information."""
     o = Outcome()
@@ -175,7 +188,7 @@ def base_outcome(hist, require_ready=True, allow_norule=False):
         o.infra = 'squid never became ready: rc=%s end=%s out=%s log=%s' % (hist.rc, hist.end, hist.output[-300:], hist.cache_log()[-400:])
     elif hist.end in ('limit-events', 'limit-wall', 'limit-simtime', 'deadlock'):
         o.infra = 'run cut short by the simulator (%s): scenario too long for its limits' % hist.end
-    elif hist.probes.get('sim.norule') and not allow_norule:
+    elif hist.probes.get('sim.norule') and not allow_norule and not norule_is_garbage(hist):
         o.infra = 'scenario bug: an origin received a request no rule matches'
     return o
 
